@@ -2285,6 +2285,26 @@ pub fn gen_case(rng: &mut Rng, tier: &str, profile: &str, stats: &mut Stats) -> 
         stats.bump("gen.cases.c15");
         return ops;
     }
+    if profile == "C19" && rng.chance(1, 6) {
+        // directed case: one long-lived session, dozens of messages in each direction under the same keys
+        stats.bump("gen.cases.directed-long-session");
+        let (x, y) = if rng.chance(1, 2) { (1, 2) } else { (2, 1) };
+        let mut ops = vec!["hworld 2 1 400 1000 86400000".to_string()];
+        ops.push(format!("hreq {} {} enr 1 1", x, y));
+        for _ in 0..2 { ops.push("hdel next".into()); }
+        ops.push(format!("hwru {} next known", y));
+        for _ in 0..3 { ops.push("hdel next".into()); }
+        ops.push(format!("hresp {} next auto", y));
+        ops.push("hdel next".into());
+        for i in 0..rng.range(36, 48) {
+            ops.push(format!("hreq {} {} enr {} {}", x, y, 2 + i, rng.range(1, 4)));
+            ops.push("hdel next".into());
+            ops.push(format!("hresp {} next auto", y));
+            ops.push("hdel next".into());
+        }
+        ops.push("hquiet".into());
+        return ops;
+    }
     if profile == "C04" && rng.chance(1, 12) {
         // directed case: a multi-packet answer trickles in, one packet per timeout period; the request is
         // retransmitted in between, but never more often than its retries allow
